@@ -458,7 +458,8 @@ class Plugin(object):
         self.user.anon = anon
         self.M.current_user = self.user
         try:
-            return self.unit.on_api_command(command, dict(data))
+            # OctoPrint hands the plugin the whole JSON body, which still carries the "command" key
+            return self.unit.on_api_command(command, dict(data, command=command))
         finally:
             self.user.anon = False
 
